@@ -15,6 +15,8 @@ every run.
                name assigned from `set(...)` or from a set operation on such names, or a
                direct `set(...)` call.
   nscmpShape   the body of the local key function `nscmp` of `_write_namespace`
+  validateShape / aliasAnalysisShape / namespaceWalkShape / ...Digest
+               the loop of IntrospectablePass.validate and the two walks it repeats
   mainPositionShape / blockDictShape / tagNsShape / parseIncludeShape
                `ast.dump` digests (structure, no line numbers) of the four functions the
                model mirrors by hand, reduced to a short list of structural facts that a
@@ -263,6 +265,10 @@ def main():
         'typeCompareShape': shape_lines(find_func(trees['giscanner/ast.py'], 'Type._compare')),
         'parseIncludeShape': shape_lines(find_func(trees['giscanner/transformer.py'], 'Transformer._parse_include')),
         'sortMatchesShape': shape_lines(find_func(trees['giscanner/transformer.py'], 'Transformer._sort_matches')),
+        'validateShape': shape_lines(find_func(trees['giscanner/introspectablepass.py'], 'IntrospectablePass.validate')),
+        'aliasAnalysisShape': shape_lines(find_func(trees['giscanner/introspectablepass.py'],
+                                                    'IntrospectablePass._introspectable_alias_analysis')),
+        'namespaceWalkShape': shape_lines(find_func(trees['giscanner/ast.py'], 'Namespace.walk')),
     }
     digests = {
         'parseDigest': digest(shape_lines(find_func(trees['giscanner/transformer.py'], 'Transformer.parse'))),
@@ -278,6 +284,12 @@ def main():
                                                            'Transformer._resolve_type_from_ctype'))),
         'splitMatchesDigest': digest(shape_lines(find_func(trees['giscanner/transformer.py'],
                                                            'Transformer._split_c_string_for_namespace_matches'))),
+        'callableAnalysisDigest': digest(shape_lines(find_func(trees['giscanner/introspectablepass.py'],
+                                                               'IntrospectablePass._introspectable_callable_analysis'))),
+        'typeIsIntrospectableDigest': digest(shape_lines(find_func(trees['giscanner/introspectablepass.py'],
+                                                                   'IntrospectablePass._type_is_introspectable'))),
+        'countIntrospectableDigest': digest(shape_lines(find_func(trees['giscanner/introspectablepass.py'],
+                                                                  'IntrospectablePass._count_introspectable'))),
     }
 
     def tup(items):
